@@ -483,6 +483,8 @@ type wstep struct {
 type wspec struct {
 	label string
 	ns    string // "default", "other", "*" (wildcard tenancy)
+	// prefix: name prefix of the listing ("" = all names)
+	prefix string
 	when  int    // created by this thread as its only step
 }
 
@@ -649,8 +651,9 @@ func (e *wexec) doStep(s wstep) {
 	}
 }
 
-func matches(ns string, k string) bool {
-	return ns == "*" || strings.HasPrefix(k, ns+"/")
+func matches(sp wspec, k string) bool {
+	name := k[strings.IndexByte(k, '/')+1:]
+	return (sp.ns == "*" || strings.HasPrefix(k, sp.ns+"/")) && strings.HasPrefix(name, sp.prefix)
 }
 
 func (e *wexec) open(w *watcher) {
@@ -658,7 +661,7 @@ func (e *wexec) open(w *watcher) {
 	if w.spec.ns == "*" {
 		ten = &pbresource.Tenancy{Partition: storage.Wildcard, Namespace: storage.Wildcard}
 	}
-	ww, err := e.be.VerifStore().WatchList(storage.UnversionedTypeFrom(resType), ten, "")
+	ww, err := e.be.VerifStore().WatchList(storage.UnversionedTypeFrom(resType), ten, w.spec.prefix)
 	if err != nil {
 		e.violate("C18:watch-fails", err.Error())
 		return
@@ -667,7 +670,7 @@ func (e *wexec) open(w *watcher) {
 	w.afterRestore = e.restored
 	w.initial, w.gotInit, w.pos = map[string]string{}, map[string]string{}, map[string]int{}
 	for k, r := range e.cur {
-		if matches(w.spec.ns, k) {
+		if matches(w.spec, k) {
 			w.initial[k] = r.Version
 		}
 	}
@@ -717,7 +720,7 @@ func (e *wexec) pump() {
 				for t := w.created; t >= w.notBefore && t < len(e.hist); t-- {
 					m := map[string]string{}
 					for k, v := range e.hist[t] {
-						if matches(w.spec.ns, k) {
+						if matches(w.spec, k) {
 							m[k] = v
 						}
 					}
@@ -745,7 +748,7 @@ func (e *wexec) pump() {
 					r = evt.GetUpsert().GetResource()
 				}
 				k := key(r.Id.Tenancy.Namespace, r.Id.Name)
-				if !matches(w.spec.ns, k) {
+				if !matches(w.spec, k) {
 					e.violate("C18:event-outside-watched-tenancy", fmt.Sprintf("watch %s received %s", w.spec.label, k))
 				}
 				if !w.snapDone {
@@ -905,7 +908,7 @@ func runW(sc *wscenario, prefix []int) (*wexec, []int, []int) {
 		for _, t := range w.cands {
 			ok := true
 			for _, c := range e.commits {
-				if !c.pseudo && c.seq > t && matches(w.spec.ns, c.key) && !w.got[c.seq] {
+				if !c.pseudo && c.seq > t && matches(w.spec, c.key) && !w.got[c.seq] {
 					ok = false
 					if missing == "" {
 						missing = fmt.Sprintf("%s commit %d (v%s del=%v) for listing point %d", c.key, c.seq, c.version, c.deleted, t)
@@ -958,6 +961,8 @@ func wscenarios(quick bool) []*wscenario {
 			add(n+" / "+sl+" / one watcher (default)", sd, progs[n], wDef)
 			add(n+" / "+sl+" / one watcher (wildcard)", sd, progs[n], wAll)
 			add(n+" / "+sl+" / watchers on sibling namespaces", sd, progs[n], wDef, wOther)
+			// two listings of one tenancy with different name prefixes: they share the cached snapshot of that subject
+			add(n+" / "+sl+" / a name-prefix watcher next to a full one", sd, progs[n], wspec{label: "watch(default,prefix r1)", ns: "default", prefix: "r1"}, wDef)
 			if !quick {
 				add(n+" / "+sl+" / two watchers on one tenancy + wildcard", sd, progs[n], wDef, wDef, wAll)
 			}
